@@ -82,6 +82,8 @@ SITES = {
                               parent="src/core/primitives.rs", modpath="core::primitives::verif_k4"),
     "serialization_layout": dict(file="serialization_layout.rs", include=["common.rs"], modname="verif_k5",
                                  parent="src/core/serialization/mod.rs", modpath="core::serialization::verif_k5"),
+    "keys_model2": dict(file="keys_model2.rs", include=["common.rs"], modname="verif_k6",
+                        parent="src/core/primitives.rs", modpath="core::primitives::verif_k6"),
     "policy_model": dict(file="policy_model.rs", include=["common.rs"], parent="src/abe_policy/access_structure.rs",
                          modpath="abe_policy::access_structure::verif_k"),
 }
@@ -200,6 +202,16 @@ for n, ln, tier in [("k_rekey_chain1", 1, "quick"), ("k_rekey_chain2", 2, "quick
       covers=["right was disabled before the rekey", "hybridized right"],
       desc="rekey of a held right: exactly one secret prepended, same flavour, SAME activation flag; older secrets untouched",
       bounds=KL + "1 right, chain of %d, activation flag and flavour symbolic, RNG symbolic" % ln, **_k)
+H("k_rekey_chain2_mixed", "keys_model2", ["C06", "C11", "C04"], "quick", unwind=4,
+  covers=["front disabled, older secret still flagged activated", "front classic, older secret hybridized"],
+  desc="rekey from an arbitrary 2-secret chain: the new secret inherits flag and flavour of the FRONT (not of an older "
+       "secret); older secrets untouched",
+  bounds=KL + "1 right, chain of 2, both activation flags and both flavours symbolic, RNG symbolic", **_k)
+for _n, _t in [("k_rekey_first_of_two_rights", "quick"), ("k_rekey_second_of_two_rights", "quick")]:
+    H(_n, "keys_model2", ["C06", "C11"], _t, unwind=4,
+      covers=["one right disabled, the other activated", "one right hybridized, the other classic"],
+      desc="rekey of one of two rights: the other chain is untouched, flags / flavours do not leak between rights",
+      bounds=KL + "2 rights x 1 secret, all flags and flavours symbolic", **_k)
 H("k_mpk_publishes_activated_fronts", "keys_model", ["C06", "C04", "C11", "C17"], "thorough", unwind=4, covers=["one right disabled"], seedable=False,
   desc="mpk(): publishes h*front.sk with the front's flavour iff the FRONT is activated; tracers published in order",
   bounds=KL + "2 rights (chains of 2 and 1), activation flags and flavour symbolic", **dict(_k, timeout=1500))
